@@ -1600,6 +1600,12 @@ impl<'s> Worker<'s> {
         if !descend {
             return WalkState::Skip;
         }
+        // A directory at the depth limit is not descended into, so failing
+        // to read it is not an error either (the single threaded walker
+        // never opens it).
+        if self.max_depth.map_or(false, |max| depth >= max) {
+            return WalkState::Skip;
+        }
 
         let readdir = match readdir {
             Ok(readdir) => readdir,
@@ -1608,9 +1614,6 @@ impl<'s> Worker<'s> {
             }
         };
 
-        if self.max_depth.map_or(false, |max| depth >= max) {
-            return WalkState::Skip;
-        }
         for result in readdir {
             let state = self.generate_work(
                 &work.ignore,
